@@ -511,5 +511,35 @@ def run(chk, prog):
                   % (fq["qname"].replace("vfps::", ""), why, "" if not sites else " -- called at %s: the result no longer has the requested number of samples" % sites[:6]),
                   "%s:changes-sample-count" % fq["qname"].replace("vfps::", ""))
     chk.floor("R7-length-changing-members", n7, 2)
+    # ---- R8: sample i of an impedance table is the i-th distinct line of the file ----------------------------------------------------------------
+    # readData drops a line whose number repeats the previous one.  The "previous" of the first line is a sentinel: it must be a value no
+    # harmonic number of a table can have (the documented numbering starts at 0), or the test must not apply to the first line at all;
+    # otherwise a table that starts at that number loses its first sample and every later sample moves down one index.
+    rd = prog.fn("vfps::Impedance::readData")
+    chk.used(rd)
+    pushes = [x for x in A.walk(rd["body"]) if x.get("k") == "CXXMemberCallExpr" and (x.get("callee") or "").split("::")[-1] in ("push_back", "emplace_back")]
+    A.require(len(pushes) == 1, "Impedance::readData: the one place that appends a sample not found")
+    ridx = A.index(rd)
+    conds8 = A.enclosing(ridx, pushes[0], {"IfStmt"})
+    n8 = 0
+    for c_ in conds8:
+        t_ = A.strip(c_["cond"])
+        if not (t_.get("k") == "BinaryOperator" and t_.get("op") == "!=" and A.declref(t_["c"][0]) is not None and A.declref(t_["c"][1]) is not None):
+            if any("empty" in (y.get("callee") or "") for y in A.walk(c_["cond"])):
+                continue            # the first line is exempted explicitly
+            raise AnalysisBroken("Impedance::readData: condition `%s` for keeping a line not understood" % A.show(c_["cond"])[:60])
+        loop_read = {y.get("decl") for w_ in A.walk(rd["body"]) if w_.get("k") in ("WhileStmt", "ForStmt") and isinstance(w_.get("cond"), dict)
+                     for y in A.walk(w_["cond"]) if y.get("k") == "DeclRefExpr"}
+        prev = [d_ for d_ in (A.declref(t_["c"][0]), A.declref(t_["c"][1])) if d_["decl"] not in loop_read]
+        A.require(len(prev) == 1, "Impedance::readData: which operand holds the previous line number is not clear")
+        dd = [d_ for st in A.walk(rd["body"]) if st.get("k") == "DeclStmt" for d_ in st["decls"] if d_.get("decl") == prev[0]["decl"]]
+        A.require(len(dd) == 1 and isinstance(dd[0].get("init"), dict), "Impedance::readData: initial value of %s not found" % prev[0]["name"])
+        txt = A.show(dd[0]["init"]).replace(" ", "")
+        lits = [y for y in A.walk(dd[0]["init"]) if y.get("k") == "IntegerLiteral"]
+        outside = ("numeric_limits" in txt and "max()" in txt) or "SIZE_MAX" in txt or (len(lits) == 1 and lits[0].get("value") == 1 and "-1" in txt)
+        n8 += 1
+        chk.check(outside, "R8", A.loc(rd, {"line": dd[0]["line"]}), "readData: before the first line the 'previous line number' %s is %s: no harmonic number of a table, "
+                  "so the first line is always kept" % (prev[0]["name"], txt[:50]), "readData:sentinel:%s" % txt[:40])
+    chk.floor("R8-dedup-conditions", n8 + (1 if not conds8 else 0), 1)
     chk.notes.append("C16: sample counts and zero upper half by a symbolic model of the vector operations, passivity and side by a sign lattice over "
                      "real/imaginary parts, homogeneity exponents, factory pairing. NOT decided: asymptotic limits of the parallel-plates model.")
